@@ -1167,6 +1167,44 @@ def directed(rng, sch, budget):
         a = under(T1, P, fsel(g1, alias="k", sub=[fsel(h1, alias="j")]), "inline")
         b = under(T2, P, fsel(g2, alias="k", sub=[fsel(h2, alias="j")]), "inline")
         out.append(("merge-nested-pair", [mk_op([at_type(P, [a, b])])]))
+    # A3. three fields under one key (first-against-rest must see a conflict between the 2nd and the 3rd), and the
+    #     conflict two levels down
+    group = []
+    for P in comps:
+        conds = [c for c in sch.composites() if set(sch.possible(P)) & set(sch.possible(c))] + [P]
+        cf = [(T, g) for T in conds for g in sch.fields(T) if sch.is_composite(named(g[2]))]
+        for _ in range(3):
+            if len(cf) >= 1:
+                group.append((P, [rng.choice(cf) for _ in range(3)]))
+    for P, picks in cap(group, budget * 2):
+        sels = []
+        deep = rng.random() < 0.4
+        for T, g1 in picks:
+            U = named(g1[2])
+            h = rng.choice(sch.fields(U) + [("__typename", [], NN(N("String")))])
+            sub = [fsel(h, alias="j")]
+            if deep and sch.is_composite(named(h[2])):
+                V = named(h[2])
+                h2 = rng.choice(sch.fields(V) + [("__typename", [], NN(N("String")))])
+                sub = [fsel(h, alias="j", sub=[fsel(h2, alias="i")])]
+            if rng.random() < 0.3:
+                sub = [mk_field("__typename", alias="t")]
+            sels.append(under(T, P, fsel(g1, alias="k", sub=sub), "inline"))
+        out.append(("merge-triple", [mk_op([at_type(P, sels)])]))
+    group = []
+    for P in comps:
+        conds = [c for c in sch.composites() if set(sch.possible(P)) & set(sch.possible(c))] + [P]
+        lf = [(T, g) for T in conds for g in sch.fields(T) if not sch.is_composite(named(g[2]))]
+        for _ in range(3):
+            if lf:
+                a = rng.choice(lf)
+                group.append((P, [a, a if rng.random() < 0.7 else rng.choice(lf), rng.choice(lf)]))
+    for P, picks in cap(group, budget * 2):
+        sels = []
+        for i, (T, g1) in enumerate(picks):
+            args = const_args(rng, sch, g1[1], all_args=(i == 2 and rng.random() < 0.5))
+            sels.append(under(T, P, fsel(g1, alias="k", args=args), rng.choice(["inline", "plain"])))
+        out.append(("merge-triple-leaf", [mk_op([at_type(P, sels)])]))
     # B. a duplicated field whose arguments are equal / differ in one value
     sc = sch.field(q, "scalars")
     variants = {
